@@ -1133,10 +1133,11 @@ Proof.
     destruct (finish_make_good s (KCorrelated n0 Unsolved) fail (fun t => hold t n0) Fr G) as (A & B & C & _); auto.
     right. exists n0, p. auto.
   - (* delete_parameter *)
-    destruct (h <? 3)%Z eqn:H3; [simpl; ssplit; auto; discriminate|].
+    destruct ((0 <=? h)%Z && (h <? 3)%Z)%bool eqn:H3; [simpl; ssplit; auto; discriminate|].
     destruct (get_param (st_pt s) h) as [[n p]|] eqn:Gp; [|simpl; ssplit; auto; discriminate].
     destruct (get_param_some _ _ _ _ Gp) as (Sn & Dn & En & Hh).
-    assert (3 <= n) by (apply Z.ltb_ge in H3; lia).
+    assert (3 <= n).
+    { apply andb_false_iff in H3. destruct H3 as [H3|H3]; [apply Z.leb_gt in H3|apply Z.ltb_ge in H3]; lia. }
     destruct (delete_release_good _ _ _ _ I P R Sn Dn H) as (t' & E & I' & P' & R').
     rewrite E. simpl. ssplit; auto; try discriminate. constructor; auto.
   - (* get_parameter_value *)
@@ -1423,7 +1424,7 @@ Lemma predefined_permanent_l : forall ops,
   (forall f, get_value (st_pt s) 0 f = mkOut (RValue (0, 0)%Z) ENone 0) /\
   (forall f, get_value (st_pt s) 1 f = mkOut (RValue (64, 0)%Z) ENone 0) /\
   (forall f, get_value (st_pt s) 2 f = mkOut (RValue (-64, 0)%Z) ENone 0) /\
-  (forall h, (h < 3)%Z -> step s (ODeleteParam h) = (s, ok_int 0)).
+  (forall h, (0 <= h < 3)%Z -> step s (ODeleteParam h) = (s, ok_int 0)).
 Proof.
   intros ops s Fr.
   destruct (run_inv ops st_initial inv_initial) as (HI & _). fold (run_state ops) in HI. fold s in HI.
@@ -1435,7 +1436,8 @@ Proof.
     rewrite P1. reflexivity.
   - unfold get_value, get_param. change (2 <? 0)%Z with false. change (Z.to_nat 2) with 2. cbv iota.
     rewrite P2. reflexivity.
-  - unfold step, step_gen. rewrite Fr. apply Z.ltb_lt in H. rewrite H. reflexivity.
+  - unfold step, step_gen. rewrite Fr. destruct H as (H0 & H1). apply Z.leb_le in H0. apply Z.ltb_lt in H1.
+    rewrite H0, H1. reflexivity.
 Qed.
 
 (* a handle deleted while a vnacal_new_t holds it: the user can no longer see it, the parameter
@@ -1472,7 +1474,7 @@ Proof.
     destruct (Nat.ltb_spec n (length (pt_slots (st_pt s)))); auto. lia. }
   exists (with_pt s t1), (S hc).
   assert (St : step s (ODeleteParam h) = (with_pt s t1, ok_int 0)).
-  { unfold step, step_gen. rewrite Fr. destruct (Z.ltb_spec h 3); try lia. rewrite Gp, E. reflexivity. }
+  { unfold step, step_gen. rewrite Fr. destruct (Z.ltb_spec h 3); try lia. rewrite andb_false_r. rewrite Gp, E. reflexivity. }
   ssplit; auto; try lia.
   - unfold get_param. destruct (Z.ltb_spec h 0); try lia. simpl. rewrite <- En, S1. reflexivity.
   - intros ms. eexists. unfold step, step_gen. simpl st_freed. rewrite Fr.
@@ -1640,7 +1642,7 @@ Proof.
     match goal with |- context [if negb ?b then _ else _] => destruct b end; [|apply keeps_refl].
     simpl negb. cbv iota. apply finish_make_keeps; eauto.
   - (* delete of another handle *)
-    destruct (h0 <? 3)%Z eqn:H3; [apply keeps_refl|].
+    destruct ((0 <=? h0)%Z && (h0 <? 3)%Z)%bool eqn:H3; [apply keeps_refl|].
     destruct (get_param (st_pt s) h0) as [[n p]|] eqn:Gp; [|apply keeps_refl].
     destruct (get_param_some _ _ _ _ Gp) as (Sn & Dn & En & Hh).
     assert (Nh : h <> n) by (intro; subst; apply ND; rewrite Z2Nat.id; auto).
